@@ -6,6 +6,7 @@ CONSTANTS
   SmallShrCount = 12
   Range <- RangeTiny
   ClassSet <- ClassesAll
+  AliasSet <- ClassesAlias
   CoreSet <- ClassesCore
 CONSTRAINT RowOut
 CHECK_DEADLOCK FALSE
